@@ -23,7 +23,10 @@ DRIVER = 'Drivers/C19.lean'
 DRIVER_MODULES = ['StarsimModel.Model.Pregnancy', 'StarsimModel.Model.Fertility', 'StarsimModel.Model.Proto']
 RULE = ('sim configurations drawn from VERIF_SEED: fertility scalar or age-specific table, dur_pregnancy and dur_postpartum, '
         'p_maternal_death / p_neonatal_death, dt in {1, 1/2, 1/4, 1/12}, burn-in on/off, MaternalNet or Prenatal+PostnatalNet, '
-        'with or without Deaths; one case = one do_step / finish_step call or one per-step snapshot replayed through the model; '
+        'with or without Deaths; plus, on every run, histories of API operations on an INITIALISED sim (staged_families: gestation / age '
+        'limits updated through sim.pars.<module>.update, module.pars.update, module.update_pars with a number, [number] or dict(v=number), '
+        'right after init and in mid-run, the sim advanced by run_one_step / run(until) / run; 30% of the generated configurations carry '
+        'such a script); one case = one do_step / finish_step call or one per-step snapshot replayed through the model; '
         'distinct = distinct canonical line; non-trivial = at least one woman is pregnant or post-partum')
 TRUSTED = ['the wrappers of harness/props/c19.py read people / module arrays (raw storage up to uid.len_used) without writing']
 ASSUMPTIONS = ['fertility rates, uniform draws (>= 0), post-partum durations, maternal-death flags, sexes, neonatal-death picks and '
@@ -52,7 +55,95 @@ def gen_cfg(rng, thorough=False):
     cfg['nets'] = rng.choice(['maternal', 'prepost', 'prepost', 'none'])
     cfg['deaths'] = rng.choice([0, 60, 200])
     cfg['min_age'] = rng.choice([15, 20]); cfg['max_age'] = rng.choice([50, 35])
+    if rng.random() < 0.3:      # a history of API operations, not only a configuration: parameters changed on the initialised sim
+        cfg['script'] = [gen_action(rng, cfg, rng.choice([0, rng.randint(1, max(1, nsteps - 2))]))]
+        cfg['run_mode'] = rng.choice(RUN_MODES)
     return cfg
+
+
+# --- histories of API operations on an initialised sim -------------------------------------------------------------------
+# cfg['script'] = [action]; an action = dict(at=k, via=..., form=..., set={parameter: new value}) is applied after sim.init()
+# and after k complete sim steps (k = 0: before the first step, i.e. before the burn-in), through the documented parameter
+# API.  cfg['run_mode']: how the sim is advanced to the change points (and to the end).
+VIAS = ['sim-pars', 'module-pars', 'update-pars']      # sim.pars.<module>.update(..) / module.pars.update(..) / module.update_pars({..})
+FORMS = ['number', 'list', 'dict']                     # Pars._update_timepar: a plain number, [number], dict(v=number)
+RUN_MODES = ['one-step', 'until', 'run']               # sim.run_one_step() throughout / sim.run(until=..) in pieces / run_one_step to the last change, then sim.run()
+TIME_KEYS = ('dur_pregnancy',)                         # the TimePar parameters (value in years: the unit is kept by the update)
+
+
+def gen_action(rng, cfg, at):
+    new = dict(dur_pregnancy=rng.choice([g for g in (0.3, 0.5, 0.6, 0.75, 1.0) if g != cfg['dur_pregnancy']]))
+    r = rng.random()
+    if r < 0.3: new['min_age'] = cfg['min_age'] + 5
+    elif r < 0.6: new['max_age'] = cfg['max_age'] - 10
+    return dict(at=int(at), via=rng.choice(VIAS), form=rng.choice(FORMS), set=new)
+
+
+def staged_families(rng):
+    """ Exercised on EVERY run (correspond and search): the sim is initialised first, then parameters are changed through
+        the parameter API (right after init = before the burn-in, and in mid-run, shorter and longer gestation, narrower age
+        limits), and the sim is advanced in pieces.  Everything derived from a parameter must follow the update: the
+        expectations (`expected_pars`: a schedule) come from the script, not from the module. """
+    seed = lambda: rng.randint(0, 9999)
+    base = lambda **kw: dict(dict(n_agents=60, rand_seed=seed(), dt=0.25, start=2000, dur=6.0, fertility=900, dur_pregnancy=0.75,
+                                  dur_postpartum=0.3, p_maternal_death=0, p_neonatal_death=0, burnin=True, nets='prepost', deaths=60,
+                                  min_age=15, max_age=50), **kw)
+    act = lambda at, new, **kw: dict(dict(at=at, via=rng.choice(VIAS), form=rng.choice(FORMS), set=new), **kw)
+    out = []
+    # every form of update (number / [number] / dict(v=number)) x {right after init (before the burn-in), mid-run} x {shorter, longer}
+    # on every run; the access path rotates with the form, the run mode with the scenario
+    for i, form in enumerate(FORMS):
+        via = lambda k: VIAS[(i + k) % len(VIAS)]
+        out += [(f'reparam-after-init-shorter-{form}', base(dt=1 / 12, dur=2.5, run_mode='run', script=[act(0, dict(dur_pregnancy=0.5), via=via(0), form=form)])),
+                (f'reparam-after-init-longer-{form}', base(nets='maternal', run_mode='one-step', script=[act(0, dict(dur_pregnancy=1.0), via=via(1), form=form)])),
+                (f'reparam-midrun-shorter-{form}', base(dt=1 / 12, dur=3.0, nets='maternal', run_mode='until',
+                                                        script=[act(rng.randint(10, 16), dict(dur_pregnancy=0.5), via=via(2), form=form)])),
+                (f'reparam-midrun-longer-narrower-{form}', base(burnin=False, run_mode='run',
+                                                                script=[act(rng.randint(4, 7), dict(dur_pregnancy=1.25, min_age=20), via=via(0), form=form),
+                                                                        act(rng.randint(10, 14), dict(dur_pregnancy=0.6, max_age=35), via=via(1), form=form)]))]
+    out += [('reparam-each-form', base(dur=5.0, nets='none', run_mode='one-step',
+                                       script=[act(2 + 5 * i, dict(dur_pregnancy=g), via=VIAS[i], form=FORMS[i]) for i, g in enumerate((0.5, 1.0, 0.3))])),
+            ('stepwise-unchanged', base(run_mode='one-step', script=[])),
+            ('until-unchanged', base(dt=0.5, dur=8.0, nets='maternal', run_mode='until', script=[act(5, {})]))]
+    return out
+
+
+# the staged families the model follows call by call in correspond() (search() runs all of them)
+STAGED_CORRESPOND = ('reparam-after-init-shorter-number', 'reparam-after-init-longer-list', 'reparam-midrun-shorter-dict',
+                     'reparam-midrun-longer-narrower-number', 'reparam-each-form', 'stepwise-unchanged', 'until-unchanged')
+
+
+def apply_action(sim, act):
+    pr = find_preg(sim)
+    shape = dict(number=lambda v: v, list=lambda v: [v], dict=lambda v: dict(v=v))[act.get('form', 'number')]
+    vals = {k: (shape(v) if k in TIME_KEYS else v) for k, v in act['set'].items()}
+    if not vals: return
+    via = act['via']
+    if via == 'sim-pars': getattr(sim.pars, pr.name).update(**vals)
+    elif via == 'module-pars': pr.pars.update(**vals)
+    elif via == 'update-pars': pr.update_pars(dict(vals))
+    else: raise ValueError(f'unknown update path {via}')
+
+
+def run_scripted(sim, cfg):
+    """ sim.init(), then the script of the configuration (no script and run_mode 'run': plain sim.run()) """
+    sim.init()
+    script = sorted(cfg.get('script') or [], key=lambda a: a['at'])
+    mode = cfg.get('run_mode') or 'run'
+    npts = int(sim.t.npts)
+    def advance(k):      # until k sim steps are complete (never the last one: sim.run() below completes and finalizes)
+        k = min(k, npts - 1)
+        if mode == 'until' and int(sim.ti) < k:
+            sim.run(until=sim.t.timevec[k - 1])      # the loop stops once the sim's clock has passed step k - 1
+        while int(sim.ti) < k:
+            sim.run_one_step()
+        if int(sim.ti) != k: raise RuntimeError(f'harness: staged run is at step {int(sim.ti)}, wanted {k}')
+    for a in script:
+        if a['at'] >= npts - 1: continue
+        advance(a['at'])
+        apply_action(sim, a)
+    if mode == 'one-step': advance(npts - 1)
+    sim.run()      # the remaining steps and finalize()
 
 
 def fixed_families(rng):
@@ -235,7 +326,7 @@ def run_recorded(cfg, zoo=False):
             sim = impl.build_sim(cfg, extra_analyzers=[probe])
         else:
             sim = build_sim(cfg, probe)
-        sim.init(); sim.run()
+        run_scripted(sim, cfg)
     return sim, rec.events, find_probe(sim).snaps
 
 
@@ -459,7 +550,17 @@ def ageing_fails(pti, ps, ti, s, dty):
     return []
 
 
-def expected_pars(cfg, zoo, code):
+def pars_at(pars, simti):
+    """ the expectations in force during sim step `simti`: the base values overridden by every script action applied before it """
+    sched = pars.get('sched')
+    if not sched: return pars
+    out = dict(pars)
+    for at, kv in sched:
+        if at <= simti: out.update(kv)
+    return out
+
+
+def expected_pars(cfg, zoo, code, npts=None):
     """ step lengths, gestation and age limits re-derived from the configuration (not read back from the module) wherever
         the configuration determines them.  dty = step of the SIMULATION in years (the clock of ageing), dtm = step of the
         PREGNANCY MODULE in years (the clock that counts gestation, ti_pregnant / ti_delivery and the burn-in steps),
@@ -472,6 +573,16 @@ def expected_pars(cfg, zoo, code):
     if not zoo:
         gy, lo, hi = float(cfg['dur_pregnancy']), float(cfg['min_age']), float(cfg['max_age'])
         p.update(gy=gy, g=gy / p['dtm'], minage=lo, maxage=hi)
+        sched = []
+        for a in sorted(cfg.get('script') or [], key=lambda a: a['at']):
+            if npts is not None and a['at'] >= npts - 1: continue        # run_scripted does not apply it either
+            kv = {}
+            for k, v in a['set'].items():
+                if k == 'dur_pregnancy': kv.update(gy=float(v), g=float(v) / p['dtm'])     # a number keeps the unit of the parameter (years)
+                elif k == 'min_age': kv['minage'] = float(v)
+                elif k == 'max_age': kv['maxage'] = float(v)
+            sched.append((int(a['at']), kv))
+        if sched: p['sched'] = sched
         return p
     d = [x for x in cfg.get('demographics', []) if x.get('type') == 'pregnancy'][0]
     p.update(minage=15.0, maxage=50.0)          # the documented defaults
@@ -496,7 +607,8 @@ SIG_LUMPED_AGEING = dict(oracle='age-at-delivery', timeline=OWN_CLOCK, asis='emb
 
 def oracle_history(cfg, events, snaps, pars):
     fails = []
-    g = pars['g']; dty = pars['dty']; dtm = pars.get('dtm', dty)
+    dty = pars['dty']; dtm = pars.get('dtm', dty)
+    base_pars = pars
     own_clock = abs(dtm - dty) > 1e-12          # the module steps on a timeline of its own
     created = {}                                # child -> (module step of conception, sim.ti at that call)
     # the module's clock at every analyzer call: the last module step executed so far (ev['ti'] counts module steps, the
@@ -509,6 +621,7 @@ def oracle_history(cfg, events, snaps, pars):
     for ev in events:
         if ev['op'] != 'dostep' or ev.get('err'): continue
         pre = ev['pre']
+        pars = pars_at(base_pars, ev['simti'])        # the parameters in force at this call (changed by the script of the configuration)
         # update_states runs first inside do_step: evaluate eligibility on the flags after update_states = post flags of non-conceivers;
         # fecund-before is judged leniently: a woman delivering/ending post-partum in this very call is excluded below
         for m in ev['conceive']:
@@ -540,6 +653,7 @@ def oracle_history(cfg, events, snaps, pars):
                                    f"{f' + {-ev[chr(116)+chr(105)]} module steps of {dtm:.4f} years before the start' if ev['ti'] < 0 else ''})")); break
     # delivery time, age at delivery, ageing, postnatal lifetime
     prev = None; conc = {}; post_live = {}
+    pars = base_pars
     known_children = pars.setdefault('_lumped_children', set())
     for ti, s in snaps:
         n = s['n']
@@ -552,6 +666,9 @@ def oracle_history(cfg, events, snaps, pars):
                 if ps['pregnant'][m] and not s['pregnant'][m] and s['postpartum'][m] and s['active'][m]:
                     tc = conc.get(m)
                     if tc is not None:
+                        # the gestation in force when this pregnancy was conceived (a script only occurs on the sim's own clock,
+                        # where module step = sim step; burn-in conceptions at tc < 0 happen during sim step 0)
+                        g = pars_at(base_pars, max(int(math.floor(tc + 1e-6)), 0))['g']
                         # gestation is counted on the module's clock: the delivery step lies among the module steps executed
                         # since the previous analyzer call (same timeline: exactly the step ti)
                         exp = max(math.ceil(tc + g - 1e-9), 0); lo, hi = mti_at(pti), mti_at(ti)
@@ -591,7 +708,7 @@ def oracle_history(cfg, events, snaps, pars):
 
 def run_oracle(cfg, zoo=False):
     sim, events, snaps = run_recorded(cfg, zoo=zoo)
-    pars = expected_pars(cfg, zoo, pars_of(sim))
+    pars = expected_pars(cfg, zoo, pars_of(sim), npts=int(sim.t.npts))
     hist = oracle_history(cfg, events, snaps, pars)
     fails = []
     for ti, s in snaps:
@@ -718,7 +835,9 @@ def correspond(ctx):
     nsims = ctx.budget(10, 70)
     max_lines = ctx.budget(1100, 6000) + 160      # + the pregnancy entries of the zoo
     lines = []; meta = []
-    fam = fixed_families(ctx.rng)
+    staged = [(nm, c) for nm, c in staged_families(ctx.rng) if nm in STAGED_CORRESPOND]
+    max_lines += 90 * len(staged)
+    fam = fixed_families(ctx.rng) + staged
     ctx.notes['fixed_families'] = [nm for nm, _ in fam]
     cfgs = [(None, c) for _, c in fam]
     # the zoo entries the model can follow (those with ss.Pregnancy): every do_step / finish_step call and every step's state
@@ -745,6 +864,24 @@ def correspond(ctx):
         if zname: ctx.count('zoo_runs')
         # burn-in step list
         pr = find_preg(sim); p = pars_of(sim)
+        first = [ev for ev in events if ev['op'] == 'dostep']
+        if first: p = first[0]['pars']          # the burn-in runs inside the first step, with the parameters in force then
+        # the parameters the model is run with are tied to the configuration: what the module reports at every do_step
+        # (gestation in steps as set_prognoses / the prenatal edges read it, gestation in years as make_embryos reads it, age
+        # limits) = the configuration's value in force at that step (the script's schedule), and the two views of the
+        # gestation agree (Pars.coherent, the hypothesis of C19_gestation_coherent)
+        exp0 = expected_pars(cfg, bool(zname), pars_of(sim), npts=int(sim.t.npts))
+        for ev in first:
+            ex = pars_at(exp0, ev['simti']); got = ev['pars']
+            bad = [f"{k}: module {got[k]:.6g}, configuration {ex[k]:.6g}" for k in ('g', 'gy', 'minage', 'maxage', 'dty')
+                   if abs(got[k] - ex[k]) > 1e-6 * (1 + abs(ex[k]))]
+            dtm = ex.get('dtm', ex['dty'])
+            if abs(got['g'] * dtm - got['gy']) > 1e-6 * (1 + abs(got['gy'])):
+                bad.append(f"gestation {got['g']:.6g} steps of {dtm:.6g} y = {got['g'] * dtm:.6g} y, but {got['gy']:.6g} y as a duration in years")
+            ctx.count('pars_ties')
+            if bad:
+                ctx.broke('correspondence', 'C19.pars', f"{tag}do_step at sim step {ev['simti']} (module ti={ev['ti']}): parameters reported by the module differ from the configuration in force: {'; '.join(bad)}", data=sim_data)
+                break
         if burnin:
             exp = list(np.arange(np.ceil(-1 * p['g']), 0, 1).astype(int))
             got = [ev['ti'] for ev in events if ev['op'] == 'dostep' and ev['simti'] == 0 and ev['ti'] < 0]
@@ -815,7 +952,7 @@ def correspond(ctx):
 
 def search(ctx):
     n = ctx.budget(12, 80)
-    cfgs = [c for _, c in fixed_families(ctx.rng)]
+    cfgs = [c for _, c in fixed_families(ctx.rng)] + [c for _, c in staged_families(ctx.rng)]
     for i in range(n):
         cfg = gen_cfg(ctx.rng, ctx.thorough)
         if i < 4:
